@@ -22,7 +22,9 @@ HOSTS = [('node001', False, False), ('node002', False, False), ('nid00003', Fals
          ('node010', False, False), ('gpu-a', False, False), ('batchlogin', True, True),
          # PBS vnodes: among these the list order is the lexical order of the names
          ('vn0001', False, False), ('vn0002', False, False), ('vn0010', False, False), ('vn0011', False, False),
-         ('vn0100', False, False)]
+         ('vn0100', False, False),
+         # names with dots: addresses, and hosts of the same short name in different domains - each is a host of its own
+         ('10.128.0.11', False, False), ('10.128.0.12', False, False), ('n01.rack-a.hpc', False, False), ('n01.rack-b.hpc', False, False)]
 VNODES = [9, 10, 11, 12, 13]
 
 
